@@ -179,6 +179,12 @@ CONTEXTS = {
     'line-nums': ('assert', ['def text-transformer Q = filter -line-nums @[M]@'], {'string'}, True),
     'path-suffix': ('setup', ['def path Q = -rel-act @[M]@'], {'string'}, True),
     'path-suffix-2': ('cleanup', ['def path Q = -rel-tmp x/@[M]@'], {'string'}, True),
+    # path components written WITHOUT a relativity option, the reference not being the leading `@[SYM]@/` part
+    'path-comp-norel': ('setup', ['def path Q = x/@[M]@'], {'string'}, True),
+    'path-comp-norel-glued': ('before-assert', ['def path Q = @[M]@x'], {'string'}, True),
+    'path-comp-norel-two-refs': ('setup', ['def string A9 = 7', 'def path Q = @[A9]@@[M]@'], {'string'}, True),
+    'file-name-comp': ('setup', ['file d/@[M]@'], {'string'}, True),
+    'dir-name-comp-cleanup': ('cleanup', ['dir x@[M]@'], {'string'}, True),
     'rel': ('setup', ['def path Q = -rel M x'], {'path'}, False),
     'rel-assert': ('assert', ['exists -rel M x'], {'path'}, False),
     'lead': ('setup', ['def path Q = @[M]@/x'], {'path', 'string'}, True),
